@@ -78,6 +78,7 @@ def _replay_wrapper(inp):
 
 
 def _until_contract(fn):
+    marg = 'self._module_node' if fn == 'extract_variable' else 'self._get_module_context()'
     return Contract(
         id='C01.Script.%s.until' % fn, prop='C01',
         clause='an until-position outside the text is rejected with ValueError (or the refactoring\'s own '
@@ -97,14 +98,14 @@ def _until_contract(fn):
             'and (line if until_line is None else until_line) <= len(self._code_lines)))'],
         ensures=[
             'implies(until_line is None and until_column is None, '
-            'result == %s(self._inference_state, self.path, self._module_node, new_name, (line, column), None))' % fn,
+            'result == %s(self._inference_state, self.path, %s, new_name, (line, column), None))' % (fn, marg),
             'implies(until_column is None and until_line is not None, '
-            'result == %s(self._inference_state, self.path, self._module_node, new_name, (line, column), '
+            'result == %s(self._inference_state, self.path, %s, new_name, (line, column), '
             '((until_line if until_line is not None else line), '
-            'len(self._code_lines[(until_line if until_line is not None else line) - 1]))))' % fn,
+            'len(self._code_lines[(until_line if until_line is not None else line) - 1]))))' % (fn, marg),
             'implies(until_column is not None, '
-            'result == %s(self._inference_state, self.path, self._module_node, new_name, (line, column), '
-            '(line if until_line is None else until_line, (until_column if until_column is not None else 0))))' % fn,
+            'result == %s(self._inference_state, self.path, %s, new_name, (line, column), '
+            '(line if until_line is None else until_line, (until_column if until_column is not None else 0))))' % (fn, marg),
         ],
         names={fn: FnSpec(fn, params=[('inference_state', ANY), ('path', ANY), ('module', ANY), ('name', STR),
                                       ('pos', POS), ('until_pos', Opt(POS))], ret=ANY, pure=True, effects=['extract'],
